@@ -88,6 +88,11 @@ pub enum Case {
     /// fuzz-target form: the bytes after the IV are given UNMASKED (static header, auth-data, body);
     /// the harness masks the header part (23 + declared auth-data size bytes) for `dst` and judges
     Unmasked { #[serde(with = "crate::ids::hex32")] dst: Id, iv: [u8; 16], #[serde(with = "crate::ids::hexvec")] rest: Vec<u8> },
+    /// receive-path companion: well-formed ordinary message datagrams of the given total sizes
+    /// (71..=1280 legal, above that oversize) from distinct unknown sources are put on the virtual
+    /// socket of a real handler; every legal one must come out of the receive path (seen as the
+    /// handler's who-are-you query for that source)
+    Wire { sizes: Vec<u16>, seed: u64 },
 }
 
 pub struct C05;
@@ -415,11 +420,94 @@ fn run_raw(rp_: &RawP, rep: &mut CaseReport) {
     judge(&sp.dst, ident, &data, rep);
 }
 
+async fn run_wire(sizes: &[u16], seed: u64, rep: &mut CaseReport) -> Option<(String, String)> {
+    use crate::engines::wire::{attacker_addr, AppMode, Know, WireConfig, World};
+    use discv5::verif::HandlerOut;
+    let cfg = WireConfig {
+        n_peers: 1,
+        retries: 0,
+        filter: false,
+        wru_mode: vec![AppMode::Manual; 4],
+        wru_know: vec![Know::Nothing; 4],
+        resp_mode: vec![AppMode::Manual; 4],
+        nodes_packets: 1,
+        seqs: vec![1; 4],
+        nat_peers: vec![],
+        nat_kind: 0,
+        foreign_enr_answer: vec![],
+        v_session_timeout_ms: None,
+        v_session_capacity: None,
+    };
+    let mut w = World::new(cfg).await;
+    let dst = w.nodes[0].id;
+    rep.class("receive-path-companion");
+    for (j, size) in sizes.iter().enumerate() {
+        let size = (*size as usize).clamp(71, 1400);
+        let r = stream(seed.wrapping_add(j as u64 * 7919), 32 + 16 + 12 + size);
+        let mut src = [0u8; 32];
+        src.copy_from_slice(&r[..32]);
+        let mut iv = [0u8; 16];
+        iv.copy_from_slice(&r[32..48]);
+        if iv_wraps(&iv) {
+            iv[15] = 0;
+            iv[14] = 0;
+        }
+        let mut nonce = [0u8; 12];
+        nonce.copy_from_slice(&r[48..60]);
+        let vp = VPacket {
+            iv: u128::from_be_bytes(iv),
+            message_nonce: nonce,
+            protocol_identity: ProtocolIdentity::default(),
+            kind: PacketKind::Message { src_id: crate::ids::node_id(&src) },
+            message: r[60..60 + size - 71].to_vec(),
+        };
+        let bytes = packet_encode(vp, &crate::ids::node_id(&dst));
+        if bytes.len() != size {
+            return Some(("HARNESS/wire-companion-size".into(), format!("built {} bytes, wanted {size}", bytes.len())));
+        }
+        let from = attacker_addr((j % 3) as u8);
+        let ev0 = w.events.len();
+        w.inject(0, from, bytes, None, Some("c05-wire".into()));
+        w.settle().await;
+        w.step += 1;
+        let seen = w.events[ev0..].iter().any(|e| {
+            e.node == 0 && matches!(&e.out, HandlerOut::WhoAreYou(r) if r.0.node_id.raw() == src && r.0.socket_addr == from && discv5::verif::whoareyou_ref_nonce(r) == nonce)
+        });
+        if size <= 1280 && !seen {
+            return Some((
+                "packet/wellformed-datagram-lost-in-receive-path".into(),
+                format!("a well-formed ordinary message datagram of {size} bytes from an unknown source was put on the handler's socket and did not come out of the receive path (no who-are-you query for its source)"),
+            ));
+        }
+        if size > 1280 && seen {
+            // not asserted: the receive buffer has 1280 bytes and recv_from truncates, so the first
+            // 1280 bytes of a longer datagram are what the node sees (DESIGN.md 11.4); counted
+            rep.count("oversize_datagram_truncated_by_the_socket_and_processed", 1);
+        }
+        if size >= 1278 && size <= 1282 {
+            rep.class("receive-path-datagram-within-2-bytes-of-1280");
+            rep.nontrivial = true;
+        }
+    }
+    None
+}
+
 pub fn run_case(case: &Case) -> CaseReport {
     let mut rep = CaseReport::default();
     match case {
         Case::Structured(sp) => run_structured(sp, &mut rep),
         Case::Raw(r) => run_raw(r, &mut rep),
+        Case::Wire { sizes, seed } => {
+            let rt = tokio::runtime::Builder::new_current_thread().enable_all().start_paused(true).build().expect("runtime");
+            let v = rt.block_on(run_wire(sizes, *seed, &mut rep));
+            drop(rt);
+            if let Some((sig, d)) = v {
+                rep.fail(sig, d);
+            }
+            if let Some(p) = crate::runner::take_panic() {
+                rep.fail(format!("panic-in-task/{}", p.split(':').take(2).collect::<Vec<_>>().join(":")), p);
+            }
+        }
         Case::Unmasked { dst, iv, rest } => {
             if iv_wraps(iv) {
                 rep.exclude("iv-low64-wraps(ctr counter width unspecified)", 1);
@@ -539,9 +627,11 @@ impl Property for C05 {
         )
             .prop_map(|(local, len, seed, prefix)| Case::Bytes { local, len, seed, prefix });
         prop_oneof![
-            4 => sp_strategy().prop_map(Case::Structured),
-            5 => (sp_strategy(), proptest::collection::vec(mut_strategy(), 1..4)).prop_map(|(base, muts)| Case::Raw(RawP { base, muts })),
-            2 => bytes,
+            120 => sp_strategy().prop_map(Case::Structured),
+            150 => (sp_strategy(), proptest::collection::vec(mut_strategy(), 1..4)).prop_map(|(base, muts)| Case::Raw(RawP { base, muts })),
+            60 => bytes,
+            // one case in ~330: receive-path companion (a real handler per case)
+            1 => (proptest::collection::vec(prop_oneof![4 => 71u16..=1280, 2 => 1276u16..=1284, 1 => Just(1280u16), 1 => 1281u16..=1400, 1 => Just(71u16)], 1..12), any::<u64>()).prop_map(|(sizes, seed)| Case::Wire { sizes, seed }),
         ]
         .boxed()
     }
@@ -549,7 +639,7 @@ impl Property for C05 {
         run_case(case)
     }
     fn rule() -> String {
-        "three generators: (1) structured well-formed packets of the three kinds (ids incl. all-zero/all-one, IV/nonce arbitrary, default or custom protocol identity, handshake signature/key sizes 0..255, with/without a pool record of 100..300 bytes, body 0..max incl. exactly filling 1280 and overflowing by 1..3): encode byte-equal to the reference encoder, decode(encode(p)) = (p, iv||unmasked header), rejected under another local id and another protocol id, >1280 rejected; (2) the same packets with 1..3 field mutations applied in the UNMASKED domain (protocol id, version, flag, auth-data size delta/absolute, signature/key size bytes, truncation, extension, bytes appended inside auth-data, auth-data corruption incl. the record, WHOAREYOU body, re-masking for another id): crate decoder compared with the reference decoder, crate-accepts/reference-rejects is a violation when the reason is on the statement's must-reject list; (3) arbitrary bytes in the length classes 0, 1..62, 63, 64..1280, 1281..1400: totality + differential. Non-trivial: (1) handshake packets or datagrams within 2 bytes of 63/1280; (2),(3) inputs that pass the protocol-id/version check (reach kind / auth-data logic).".into()
+        "three generators: (1) structured well-formed packets of the three kinds (ids incl. all-zero/all-one, IV/nonce arbitrary, default or custom protocol identity, handshake signature/key sizes 0..255, with/without a pool record of 100..300 bytes, body 0..max incl. exactly filling 1280 and overflowing by 1..3): encode byte-equal to the reference encoder, decode(encode(p)) = (p, iv||unmasked header), rejected under another local id and another protocol id, >1280 rejected; (2) the same packets with 1..3 field mutations applied in the UNMASKED domain (protocol id, version, flag, auth-data size delta/absolute, signature/key size bytes, truncation, extension, bytes appended inside auth-data, auth-data corruption incl. the record, WHOAREYOU body, re-masking for another id): crate decoder compared with the reference decoder, crate-accepts/reference-rejects is a violation when the reason is on the statement's must-reject list; (3) arbitrary bytes in the length classes 0, 1..62, 63, 64..1280, 1281..1400: totality + differential; (4) one case in ~330 is a receive-path companion: 1..11 well-formed ordinary message datagrams of 71..1400 bytes (biased to 1276..1284) from distinct unknown sources are put on the virtual socket of a real handler; each one of <= 1280 bytes must come out of the receive path (observed as the handler's who-are-you query for exactly that source and nonce); longer ones are truncated by the socket to 1280 bytes and are only counted. Non-trivial: (1) handshake packets or datagrams within 2 bytes of 63/1280; (2),(3) inputs that pass the protocol-id/version check (reach kind / auth-data logic).".into()
     }
     fn assumptions() -> Vec<String> {
         vec![
